@@ -97,3 +97,50 @@ Section ExecEvents.
     xres_ev ev (exec_body fuel dv t born started self_name self_rel imps st ev).
   Proof. unfold exec_body. apply imports_loop_ev. intros. apply load_module_ev. Qed.
 End ExecEvents.
+
+(* every load event belongs to a file the caller asked for or to a file found by an import statement *)
+Section ExecEventOrigin.
+  Variable dv : deviations.
+  Variable t : tree.
+  Variable E : event -> Prop.
+  Hypothesis Enew : forall cnd f self_name self_rel i cs,
+      candidates dv self_name self_rel i = Some cs -> In cnd cs -> tree_get t (cd_path cnd) = Some f -> E (cd_name cnd, f_gen f).
+
+  Definition all_E (ev : list event) : Prop := forall e, In e ev -> E e.
+  Definition xres_E (r : xres) : Prop :=
+    match r with XOk _ ev' _ => all_E ev' | XFail _ ev' => all_E ev' | XFuel => True end.
+
+  Lemma imports_loop_E load self_name self_rel :
+    (forall cnd f st ev i cs, candidates dv self_name self_rel i = Some cs -> In cnd cs ->
+        tree_get t (cd_path cnd) = Some f -> all_E ev -> xres_E (load cnd f st ev)) ->
+    forall imps st ev acc, all_E ev -> xres_E (imports_loop load dv t self_name self_rel imps st ev acc).
+  Proof.
+    intros Hload. induction imps as [|i rest IH]; intros st ev acc Hev; cbn [imports_loop]; [exact Hev|].
+    destruct (candidates dv self_name self_rel i) as [cs|] eqn:Ec; [|exact Hev].
+    destruct (find_loaded st cs) as [n|]; [apply IH; exact Hev|].
+    destruct (find_file t cs) as [[cnd f]|] eqn:Ef; [|exact Hev].
+    destruct (find_file_In _ _ _ _ Ef) as [Hcnd Hf].
+    pose proof (Hload cnd f st ev i cs Ec Hcnd Hf Hev) as Hg.
+    destruct (load cnd f st ev) as [st2 ev2 imps2|st2 ev2|]; cbn in Hg |- *; [apply IH; exact Hg|exact Hg|exact I].
+  Qed.
+
+  Lemma load_module_E : forall fuel born started cnd f st ev self_name self_rel i cs,
+    candidates dv self_name self_rel i = Some cs -> In cnd cs -> tree_get t (cd_path cnd) = Some f ->
+    all_E ev -> xres_E (load_module fuel dv t born started cnd f st ev).
+  Proof.
+    induction fuel as [|fuel IH]; intros born started cnd f st ev sn sr i cs Ec Hcnd Hf Hev; cbn [load_module]; [exact I|].
+    assert (Hloop : xres_E (imports_loop (load_module fuel dv t born started) dv t (cd_name cnd) (cd_rel cnd) (f_imps f)
+                              (st_del st (cd_name cnd)) (ev ++ [(cd_name cnd, f_gen f)]) [])).
+    { apply imports_loop_E.
+      - intros cnd' f' st' ev' i' cs' Ec' Hcnd' Hf' Hev'. eapply IH; eassumption.
+      - intros e He. apply in_app_or in He. destruct He as [He|[<-|[]]]; [apply Hev; exact He|eapply Enew; eassumption]. }
+    destruct (imports_loop _ dv t (cd_name cnd) (cd_rel cnd) (f_imps f) _ _ []); cbn in Hloop |- *; try exact I; exact Hloop.
+  Qed.
+
+  Lemma exec_body_E fuel born started self_name self_rel imps st ev : all_E ev ->
+    xres_E (exec_body fuel dv t born started self_name self_rel imps st ev).
+  Proof.
+    intros Hev. unfold exec_body. apply imports_loop_E; [|exact Hev].
+    intros cnd f st' ev' i cs Ec Hcnd Hf Hev'. eapply load_module_E; eassumption.
+  Qed.
+End ExecEventOrigin.
